@@ -182,6 +182,11 @@ class Interp:
             import cubed
             z = self.make_target(st, a[0])
             return cubed.to_zarr(a[0], z, region=region, compute=False)
+        if op == "precompute":
+            # the user computes the array once (result discarded) and goes on using the same lazy object
+            if self.is_cubed:
+                a[0].compute()
+            return a[0]
         if op == "qr":
             if self.is_cubed:
                 import cubed.array_api.linalg as la
